@@ -1,13 +1,14 @@
 #!/bin/bash
 # usage: tools_seed_eval.sh <tag> <check ids...>      e.g. tools_seed_eval.sh 55a C16 C12
-# Evaluates the seeded change /tmp/seed/out<tag>/patch.diff in a scratch worktree /tmp/seed/ev<tag> of /repo's HEAD:
+# Evaluates the seeded change $SEEDROOT/out<tag>/patch.diff (SEEDROOT defaults to /tmp/seed) in a scratch worktree $SEEDROOT/ev<tag> of /repo's HEAD:
 #  1. confirms it (builds, whole suite passes, demo.sh exits 1 with the change and 0 without),
 #  2. runs the named checks (quick) against that worktree (VERIF_REPO) with output redirected (VERIF_OUT), so /repo and
 #     /verif/evidence are not touched,
 #  3. removes the worktree and the build output. Logs stay in /tmp/seed/evlog/<tag>/.
 export GOFLAGS=-mod=mod GOPROXY=off GOSUMDB=off GOTOOLCHAIN=local
 TAG=$1; shift
-OUT=/tmp/seed/out$TAG; EV=/tmp/seed/ev$TAG; EO=/tmp/seed/evout$TAG; LOG=/tmp/seed/evlog/$TAG
+R=${SEEDROOT:-/tmp/seed}
+OUT=$R/out$TAG; EV=$R/ev$TAG; EO=$R/evout$TAG; LOG=$R/evlog/$TAG
 [ -f $OUT/patch.diff ] || { echo "no patch.diff in $OUT"; exit 2; }
 mkdir -p $LOG; rm -rf $EO; mkdir -p $EO
 git -C /repo worktree remove --force $EV 2>/dev/null
